@@ -117,7 +117,15 @@ def worker(job):
                 fix = lambda v: np.ma.masked_array(np.where((np.ma.getdata(v) == 0) & ~np.ma.getmaskarray(v), 1, np.ma.getdata(v)).astype(dtype), mask=np.ma.getmaskarray(v)) if yn else np.where(v == 0, 1, v).astype(dtype)
                 inputs[1] = [fix(v) for v in inputs[1]]
                 yd = np.ma.getdata(inputs[1][0])
-            oracle = (m, NP_BINARY[op](xd, np.ma.getdata(inputs[1][0])))
+            def safe(v, isnull):
+                d = np.ma.getdata(v)
+                if isnull and d.dtype.kind in "iuf":
+                    d = np.where(np.ma.getmaskarray(v), np.asarray(1).astype(d.dtype), d)     # results under nulls are ignored
+                return d
+            try:
+                oracle = (m, NP_BINARY[op](safe(inputs[0][0], xn), safe(inputs[1][0], yn)))
+            except Exception:
+                oracle = None
         elif op in REDUCE or op in ("mean", "std", "var", "argmax", "cumulative_sum"):
             if r == 0:
                 shape = (3,)
@@ -133,11 +141,14 @@ def worker(job):
                 mx = x[0]
                 npf = {"sum": np.ma.sum, "prod": np.ma.prod, "min": np.ma.min, "max": np.ma.max, "all": np.ma.all, "any": np.ma.any,
                        "mean": np.ma.mean}[op]
-                ref = npf(mx, axis=axis, keepdims=kd)
-                oracle = ("reduce", ref)
+                try:
+                    ref = npf(mx, axis=axis, keepdims=kd)
+                    oracle = ("reduce", ref)
+                except ValueError:
+                    oracle = None       # min/max over an empty axis: NumPy refuses, nothing to compare
         elif op in ("sort", "argsort"):
-            if r == 0:
-                shape = (4,)
+            if r == 0 or 0 in shape:
+                shape = (4,)          # zero extents: recorded C12 finding (onnxruntime TopK kills the interpreter)
             x = make_input(rng, prng, dtype, shape)
             inputs, dts = [x], [ndt]
             call = lambda a: getattr(ndx, op)(a, axis=-1)
